@@ -74,7 +74,7 @@ def r1(run, ctx):
         f = ctx.fn(key)
         asg = [n for n in ctx.live_nodes(f) if n.kind == 'stmt' and isinstance(n.ast, ast.Assign)
                and any(isinstance(t, ast.Name) and t.id == 'watchers' for t in n.ast.targets)]
-        run.count('R1', len(asg), 2, 'sources of the start order in %s' % f.qualname)
+        run.count('R1', len(asg), 1, 'sources of the start order in %s' % f.qualname)
         for n in asg:
             v = n.ast.value
             ok = isinstance(v, ast.Call) and norm_text(v.func) in ('self.iter_watchers',
